@@ -134,6 +134,38 @@ def _finally_filter(run, P):
     else:
         snap = False
     all_keys = norm(inner) in ("self.context.keys()", "self.context")
+    tracked = dotted(inner) if (dotted(inner) or "").startswith("self.") and dotted(inner) not in (
+        "self.context",) else None
+    if not all_keys and tracked:
+        # the cleanup walks a set of names kept beside the store: sound exactly when
+        # every binding made while a step runs is entered into that set
+        C = P.cls(INTERP)
+        direct = []
+        n_sites = 0
+        for name_, m_ in sorted(C.methods.items()):
+            if name_ in ("set_up", "__init__"):
+                continue
+            units = [m_] + list(m_.nested.values())
+            for u in units:
+                stores_ = [x for x in ast.walk(u.node) if isinstance(x, ast.Subscript)
+                           and dotted(x.value) == "self.context" and isinstance(x.ctx, ast.Store)
+                           and not isinstance(x.slice, ast.Constant)]
+                if not stores_:
+                    continue
+                adds = {norm(c_.args[0]) for c_ in ast.walk(u.node) if isinstance(c_, ast.Call)
+                        and dotted(c_.func) == f"{tracked}.add" and c_.args}
+                for x in stores_:
+                    n_sites += 1
+                    if norm(x.slice) not in adds:
+                        direct.append((u, x))
+        run.ob("C11.filter", direct[0][0] if direct else f, direct[0][1] if direct else outer,
+               bool(n_sites) and not direct,
+               construct=f"the cleanup walks {tracked}: every binding made outside set_up ({n_sites} "
+                         f"store site(s)) enters its name there"
+                         + (f" (not so: {norm(direct[0][1], 40)} in {direct[0][0].qualname})" if direct else ""),
+               why="a name that is bound past the bookkeeping (the identifier of an array loop that "
+                   "is interrupted by an exception, say) stays visible after the step")
+        snap = all_keys = True
     run.ob("C11.filter", f, outer, snap and all_keys,
            construct=f"for {norm(outer.target)} in {norm(it)}",
            why="the cleanup must see every key that is in the store (loop "
@@ -158,7 +190,55 @@ def _finally_filter(run, P):
 
 
 def _handlers_in(tree):
-    return [n for n in ast.walk(tree) if isinstance(n, ast.ExceptHandler)]
+    out = []
+    for t in ast.walk(tree):
+        if isinstance(t, ast.Try):
+            for h in t.handlers:
+                h._verif_try = t
+                out.append(h)
+    return out
+
+
+_PURE_CALLS = {"len", "sorted", "isinstance", "getattr", "hasattr", "dict", "list", "set", "tuple",
+               "frozenset", "str", "repr", "int", "float", "bool", "min", "max", "sum", "enumerate",
+               "zip", "range", "iter", "type", "id", "callable", "print", "any", "all", "reversed"}
+_PURE_METHODS = {"get", "items", "keys", "values", "append", "extend", "add", "discard", "copy",
+                 "startswith", "endswith", "format", "join", "split", "index", "count", "debug",
+                 "info", "warning", "popleft", "appendleft"}
+
+
+def _handler_standing(h):
+    """'safe' - nothing a user function raises can arrive in, or be changed by, this handler;
+    'reach' - the protected block can run a user function; 'unknown' otherwise."""
+    t = getattr(h, "_verif_try", None)
+    if t is None:
+        return "reach"
+    # the handler hands the same exception on, whatever it does before
+    body = h.body
+    rethrows = bool(body) and isinstance(body[-1], ast.Raise) and body[-1].exc is None \
+        and not any(isinstance(x, (ast.Return, ast.Continue, ast.Break, ast.Yield, ast.YieldFrom))
+                    for b in body for x in ast.walk(b)) \
+        and not any(isinstance(x, ast.Raise) and x.exc is not None for b in body for x in ast.walk(b))
+    if rethrows:
+        return "safe"
+    verdict = "safe"
+    for b in t.body:
+        for x in ast.walk(b):
+            if isinstance(x, (ast.Yield, ast.YieldFrom)):
+                return "reach"
+            if not isinstance(x, ast.Call):
+                continue
+            d = dotted(x.func) or ""
+            if isinstance(x.func, ast.Name) and x.func.id in _PURE_CALLS:
+                continue
+            if isinstance(x.func, ast.Attribute) and x.func.attr in _PURE_METHODS \
+                    and not d.startswith("self.") or d in ("self.context.get", "self.context.pop"):
+                continue
+            if isinstance(x.func, ast.Subscript) or d.startswith("self.") or d in (
+                    "func", "function", "f") or "functions" in norm(x.func):
+                return "reach"
+            verdict = "unknown"
+    return verdict
 
 
 def _transparent(run, P):
@@ -201,6 +281,14 @@ def _transparent(run, P):
         else:
             types = [dotted(h.type) or norm(h.type)]
         ok = all(t in CONTROL for t in types)
+        if not ok:
+            standing = _handler_standing(h)
+            if standing == "safe":
+                ok = True
+                types = types + ["(nothing of the user's passes through, or it is handed on unchanged)"]
+            elif standing == "unknown":
+                raise AnalysisError(f"{label}: except {', '.join(types)} around calls whose callee "
+                                    f"is not known here; not decided")
         run.ob("C11.transparent", where, h, ok,
                construct=f"{label}: except {', '.join(types)}",
                why="a handler wider than dagrt's own control exceptions can swallow or "
@@ -340,6 +428,12 @@ def _driver_state(run, P):
             if isinstance(x, ast.Attribute) and isinstance(x.value, ast.Name) and x.value.id == "self" \
                     and isinstance(x.ctx, ast.Store) and x.attr != "next_phase":
                 attrs.append(x)
+        # an attribute that the finally clause of the same driver puts back to a constant
+        # is bookkeeping of the step in progress, not state that survives it
+        reset = {t_.attr for t in ast.walk(f.node) if isinstance(t, ast.Try) for b in t.finalbody
+                 for s_ in ast.walk(b) if isinstance(s_, ast.Assign) and isinstance(s_.value, ast.Constant)
+                 for t_ in s_.targets if isinstance(t_, ast.Attribute) and dotted(t_.value) == "self"}
+        attrs = [x for x in attrs if x.attr not in reset]
         run.ob("C11.confined", f, (stores + attrs)[0] if stores + attrs else f.node, not stores and not attrs,
                construct=f"NumpyInterpreter.{name} writes no variable (outside the cleanup) and no "
                          f"attribute but next_phase"
